@@ -76,29 +76,25 @@ func Refresh(data map[string]string) error {
 	}
 
 	// Initialize appender references in a logger
-	initAppenderRefs := func(v reflect.Value, cAppenders map[string]Appender) (*LoggerBase, error) {
-		var (
-			base *LoggerBase
-			ref  *AppenderRefs
-		)
+	initAppenderRefs := func(v reflect.Value, cAppenders map[string]Appender) error {
+		var ref *AppenderRefs
 		switch config := v.Interface().(type) {
 		case *SyncLogger:
-			base = &config.LoggerBase
 			ref = &config.AppenderRefs
 		case *AsyncLogger:
-			base = &config.LoggerBase
 			ref = &config.AppenderRefs
-		default: // for linter
+		default:
+			return nil // logger kinds without appender references
 		}
 		for _, r := range ref.AppenderRefs {
 			appender, ok := cAppenders[r.Ref]
 			if !ok {
-				return nil, errutil.Explain(nil, "appender %s not found", r.Ref)
+				return errutil.Explain(nil, "appender %s not found", r.Ref)
 			}
 			r.Appender = appender
 		}
 		ref.sortByLevel()
-		return base, nil
+		return nil
 	}
 
 	var (
@@ -126,8 +122,7 @@ func Refresh(data map[string]string) error {
 		if err != nil {
 			return errutil.Stack(err, "create logger %s error", name)
 		}
-		base, err := initAppenderRefs(v, cAppenders)
-		if err != nil {
+		if err = initAppenderRefs(v, cAppenders); err != nil {
 			return errutil.Stack(err, "init appender refs for logger %s error", name)
 		}
 		logger := v.Interface().(Logger)
@@ -135,7 +130,7 @@ func Refresh(data map[string]string) error {
 
 		// Skip the root logger
 		if name == RootLoggerName {
-			if base.Tags != "" {
+			if logger.GetTags() != "" {
 				err = errutil.Explain(nil, "root logger must not define any tags")
 				return errutil.Stack(err, "create logger %s error", name)
 			}
@@ -145,7 +140,7 @@ func Refresh(data map[string]string) error {
 
 		// Parse and validate tag list
 		var tags []string
-		for tag := range strings.SplitSeq(base.Tags, ",") {
+		for tag := range strings.SplitSeq(logger.GetTags(), ",") {
 			if tag = strings.TrimSpace(tag); tag == "" {
 				continue
 			}
